@@ -9,6 +9,7 @@ def run(tier, seed):
     tasks = PC.make_tasks(tier, seed, ORACLES, layouts=["comments"], layout_depth=1)
     results = pool.run_tasks("checks.parser_common:task", tasks)
     results += pool.run_tasks("checks.parser_common:valid_task", PC.valid_tasks(tier, seed, ORACLES, post="reuse"))
+    results += pool.run_tasks("checks.parser_common:comment_task", PC.comment_tasks(tier, ORACLES))
     cov, viols, harness = PC.assemble(results)
     viols = [v for v in viols if v["property"] == "C03"]
     return dict(violations=viols, coverage=cov, harness_errors=harness, assumptions=PC.ASSUMPTIONS)
